@@ -1,6 +1,7 @@
 package vc
 
 import (
+	"os"
 	"fmt"
 	"go/token"
 	"sort"
@@ -19,6 +20,7 @@ type loopInfo struct {
 	spec    *LoopSpec
 	order   []*ssa.BasicBlock // blocks in RPO
 	freshPhis map[*ssa.Phi]bool
+	rangeLoop bool // header phi is the previous index, the body works on phi+1
 }
 
 type edgeState struct {
@@ -512,7 +514,7 @@ func (b *bodyRun) runLoop(li *loopInfo) {
 			continue
 		}
 		init, isS := stIn.env[p].(Scalar)
-		if !isS || init.T.Op != "bv" {
+		if !isS {
 			continue
 		}
 		okStep := true
@@ -586,6 +588,7 @@ func (b *bodyRun) runLoop(li *loopInfo) {
 					}
 				}
 				if okForm {
+					li.rangeLoop = strict
 					bound := cmp.Y
 					lbl := fmt.Sprintf("auto:%s<=bound", name)
 					items = append(items, invItem{label: lbl, eval: func(st *State, phiVals map[*ssa.Phi]Value) *smt.Term {
@@ -605,7 +608,11 @@ func (b *bodyRun) runLoop(li *loopInfo) {
 				}
 			}
 		}
-		items = append(items, invItem{label: fmt.Sprintf("auto:%s>=%d", name, initT.SVal()), eval: func(st *State, phiVals map[*ssa.Phi]Value) *smt.Term {
+		initLbl := "init"
+		if initT.Op == "bv" {
+			initLbl = fmt.Sprint(initT.SVal())
+		}
+		items = append(items, invItem{label: fmt.Sprintf("auto:%s>=%s", name, initLbl), eval: func(st *State, phiVals map[*ssa.Phi]Value) *smt.Term {
 			var v Value
 			if phiVals != nil {
 				v = phiVals[p]
@@ -681,7 +688,18 @@ func (b *bodyRun) runLoop(li *loopInfo) {
 	// generalisation is meaningful.  The invariant is named by a propositional
 	// placeholder assumed here and defined after the body has been executed.
 	var autoB, ctrT *smt.Term
-	autoOK := ctrPhi != nil && len(writes) == 0 && len(st.ghost) == 0 && !e.noAutoInv
+	autoOK := ctrPhi != nil && len(st.ghost) == 0 && !e.noAutoInv
+	for _, k := range sortedKeys(writes) {
+		// a local that every iteration overwrites before using it (the copy of
+		// the element in `for _, x := range xs`) carries nothing from one
+		// iteration to the next
+		if !b.iterationLocal(li, writes[k].Obj, stIn) {
+			autoOK = false
+		}
+	}
+	if os.Getenv("GOVC_DEBUG") != "" {
+		fmt.Fprintf(os.Stderr, "loop %s.%s: phis=%d ctr=%v writes=%v ghost=%d\n", b.fn.Name(), label, len(phis), ctrPhi != nil, sortedKeys(writes), len(st.ghost))
+	}
 	if autoOK {
 		ctrT = st.env[ctrPhi].(Scalar).T
 		autoB = c.Fresh(fmt.Sprintf("autoinv_%s_l%d", b.fn.Name(), li.ordinal), smt.Bool)
@@ -821,8 +839,9 @@ func (e *Exec) havocLike(old Value, name string) Value {
 	case *ArrV:
 		fn := c.FreshName(name + "_arr")
 		el := v.Elem
+		params := append([]*smt.Term{}, c.FreshParams...)
 		return &ArrV{Elem: el, N: v.N, Read: func(i *smt.Term) Value {
-			return e.fromTerm(el, c.App(fn, sortOf(el), i), name+"[]")
+			return e.fromTerm(el, c.App(fn, sortOf(el), append(append([]*smt.Term{}, params...), i)...), name+"[]")
 		}}
 	case *StructV:
 		s := &StructV{T: v.T, F: make([]Value, len(v.F))}
@@ -1026,8 +1045,18 @@ func (b *bodyRun) defineAutoInv(li *loopInfo, autoB, ctr, init *smt.Term, signed
 	for _, f := range hdrFacts.collect() {
 		inHdr[f.ID] = true
 	}
+	// generalise over the index the iteration works on: for range loops the
+	// header phi is the previous index and the body uses phi+1, so the bound
+	// variable stands for phi+1 (no arithmetic inversion is then needed to
+	// match a[phi+1] against a[k])
 	jv := c.BoundVar("it", ctr.Sort)
+	one := c.BVC(1, ctr.Sort.W)
 	sub := map[*smt.Term]*smt.Term{ctr: jv}
+	lo, hi := init, ctr // lo <= jv < hi
+	if li.rangeLoop {
+		sub = map[*smt.Term]*smt.Term{c.BVAdd(ctr, one): jv, ctr: c.BVSub(jv, one)}
+		lo, hi = c.BVAdd(init, one), c.BVAdd(ctr, one)
+	}
 	var parts []*smt.Term
 	seen := map[int]bool{}
 	add := func(t *smt.Term) {
@@ -1062,9 +1091,9 @@ func (b *bodyRun) defineAutoInv(li *loopInfo, autoB, ctr, init *smt.Term, signed
 	}
 	var rng *smt.Term
 	if signed {
-		rng = c.And(c.BVSle(init, jv), c.BVSlt(jv, ctr))
+		rng = c.And(c.BVSle(lo, jv), c.BVSlt(jv, hi))
 	} else {
-		rng = c.And(c.BVUle(init, jv), c.BVUlt(jv, ctr))
+		rng = c.And(c.BVUle(lo, jv), c.BVUlt(jv, hi))
 	}
 	e.Axioms = append(e.Axioms, c.Implies(autoB, c.Forall([]*smt.Term{jv}, c.Implies(rng, body))))
 	e.AutoInvs++
@@ -1094,4 +1123,92 @@ func mentionsLocalAddr(t *smt.Term, lo, hi int) bool {
 		return false
 	}
 	return rec(t)
+}
+
+
+// iterationLocal reports whether obj is a local variable allocated outside the
+// loop that each iteration stores as a whole before any other use of it inside
+// the loop (dominance check on the SSA).
+func (b *bodyRun) iterationLocal(li *loopInfo, obj *Object, st *State) bool {
+	if obj.Pre {
+		return false
+	}
+	var al *ssa.Alloc
+	for v, val := range st.env {
+		a, ok := v.(*ssa.Alloc)
+		if !ok || li.blocks[a.Block()] {
+			continue
+		}
+		if p, ok := val.(*PtrV); ok && len(p.Alts) == 1 && p.Alts[0].Loc != nil && p.Alts[0].Loc.Obj == obj && len(p.Alts[0].Loc.Path) == 0 {
+			al = a
+		}
+	}
+	if al == nil {
+		return false
+	}
+	// uses of the variable (and of addresses derived from it) inside the loop
+	type use struct {
+		ins ssa.Instruction
+	}
+	var uses []ssa.Instruction
+	var whole *ssa.Store
+	seen := map[ssa.Value]bool{}
+	var walk func(v ssa.Value)
+	walk = func(v ssa.Value) {
+		if seen[v] {
+			return
+		}
+		seen[v] = true
+		refs := v.Referrers()
+		if refs == nil {
+			return
+		}
+		for _, r := range *refs {
+			if _, isDbg := r.(*ssa.DebugRef); isDbg {
+				continue
+			}
+			if !li.blocks[r.Block()] {
+				continue
+			}
+			if s, ok := r.(*ssa.Store); ok && s.Addr == ssa.Value(al) && v == ssa.Value(al) && s.Val != ssa.Value(al) {
+				if whole == nil {
+					whole = s
+				} else {
+					uses = append(uses, r)
+				}
+				continue
+			}
+			uses = append(uses, r)
+			switch x := r.(type) {
+			case *ssa.FieldAddr:
+				walk(x)
+			case *ssa.IndexAddr:
+				walk(x)
+			}
+		}
+	}
+	walk(al)
+	if whole == nil {
+		return false
+	}
+	pos := func(ins ssa.Instruction) int {
+		for i, x := range ins.Block().Instrs {
+			if x == ins {
+				return i
+			}
+		}
+		return -1
+	}
+	for _, u := range uses {
+		if u.Block() == whole.Block() {
+			if pos(u) <= pos(whole) {
+				return false
+			}
+			continue
+		}
+		if !whole.Block().Dominates(u.Block()) {
+			return false
+		}
+	}
+	return true
 }
